@@ -105,6 +105,26 @@ func requests(r *mc.Run) {
 					judge(m, in{Kind: "request", Level: level, Byte: i, Bit: bit}, fmt.Sprintf("bit %d of byte %d flipped", bit, i))
 				}
 			}
+			if r.Thorough() && (level == 8 || level == 2) {
+				// every pair of flipped bits (a forger may compensate one change with another)
+				nb := len(good) * 8
+				for a := 0; a < nb && !r.Expired(); a++ {
+					r.Journal(fmt.Sprintf("request level %d, two-bit flips, first bit %d", level, a))
+					for b := a + 1; b < nb; b++ {
+						m := bytes.Clone(good)
+						m[a/8] ^= 1 << (a % 8)
+						m[b/8] ^= 1 << (b % 8)
+						r.Evals++
+						r.Distinct++
+						if send(m) != 0 && !((a/8 >= ap && a/8 < ap+4) && (b/8 >= ap && b/8 < ap+4)) {
+							r.Fail("request", "tampered-request-served", fmt.Sprintf("request at pool level %d with bits %d and %d flipped was served", level, a, b), in{Kind: "request-2bit", Level: level, Byte: a, Bit: b})
+						}
+					}
+				}
+				if r.Expired() {
+					r.NotExhaustive("deadline in two-bit request flips")
+				}
+			}
 			// every type / length field of every extension field, and the nonce / ciphertext lengths
 			for pos := 48; pos+4 <= len(good); {
 				l := int(binary.BigEndian.Uint16(good[pos+2:]))
@@ -246,6 +266,25 @@ func responses(r *mc.Run) {
 				if ok && protected {
 					r.Fail("response", "tampered-response-accepted", fmt.Sprintf("response with %d cookies, bit %d of byte %d flipped (authenticator at %d): accepted", ncook, bit, i, ap), in{Kind: "response", Level: ncook, Byte: i, Bit: bit})
 				}
+			}
+		}
+		if r.Thorough() && (ncook == 1 || ncook == 3) {
+			nb := len(good) * 8
+			for a := 0; a < nb && !r.Expired(); a++ {
+				r.Journal(fmt.Sprintf("response with %d cookies, two-bit flips, first bit %d", ncook, a))
+				for b := a + 1; b < nb; b++ {
+					m := bytes.Clone(good)
+					m[a/8] ^= 1 << (a % 8)
+					m[b/8] ^= 1 << (b % 8)
+					r.Evals++
+					r.Distinct++
+					if ok, _ := accept(m, key, uid); ok && !((a/8 >= ap && a/8 < ap+4) && (b/8 >= ap && b/8 < ap+4)) {
+						r.Fail("response", "tampered-response-accepted", fmt.Sprintf("response with %d cookies, bits %d and %d flipped: accepted", ncook, a, b), in{Kind: "response-2bit", Level: ncook, Byte: a, Bit: b})
+					}
+				}
+			}
+			if r.Expired() {
+				r.NotExhaustive("deadline in two-bit response flips")
 			}
 		}
 		for pos := 48; pos+4 <= len(good); {
@@ -534,6 +573,6 @@ func TestCheck(t *testing.T) {
 		}
 		r.Sample(in{Kind: "request", Level: 5, Byte: 100, Bit: 3})
 		r.Sample(in{Kind: "response-field", Level: 2, Byte: 86, Val: 0xffff})
-		r.Extra["rule"] = "requests of the project's encoder at pool levels 2..8 through the real IP listener, responses with 1..7 cookies through DecodePacket/ProcessResponse, three sealed cookies through Decode/Decrypt (and every ordered pair of them opened in overlap: the first result must survive the second open): every single-bit flip, every extension type/length and nonce/ciphertext length field over 8+3 values, every truncation, wrong key / direction / session, every single-bit variation of the session key presented right after a genuine verification, wrong and shortened unique identifier, session keys from the project's ExportKeys on both ends of a real TLS session with packets presented in the opposite direction, unauthenticated fields (unique identifier, cookie, placeholder, unknown, second authenticator) appended after the authenticator; distinct = distinct mutated packets"
+		r.Extra["rule"] = "requests of the project's encoder at pool levels 2..8 through the real IP listener, responses with 1..7 cookies through DecodePacket/ProcessResponse, three sealed cookies through Decode/Decrypt (and every ordered pair of them opened in overlap: the first result must survive the second open): every single-bit flip (thorough: every pair of bit flips of the requests at pool levels 8 and 2 and of the responses with 1 and 3 cookies), every extension type/length and nonce/ciphertext length field over 8+3 values, every truncation, wrong key / direction / session, every single-bit variation of the session key presented right after a genuine verification, wrong and shortened unique identifier, session keys from the project's ExportKeys on both ends of a real TLS session with packets presented in the opposite direction, unauthenticated fields (unique identifier, cookie, placeholder, unknown, second authenticator) appended after the authenticator; distinct = distinct mutated packets"
 	})
 }
